@@ -11,6 +11,7 @@
 -/
 import KadDHT.Model.ProvSearch
 import KadDHT.Model.Lookup
+import KadDHT.Model.FullRT
 namespace KadDHT.C08
 open KadDHT.ProvSearch
 
@@ -358,5 +359,77 @@ theorem followups_asked_otherwise {P : Type} [DecidableEq P] (r : Lookup.Result 
   split
   · rename_i h; simp at h; simp [h]
   · simp
+
+/-! ### the accelerated client -/
+
+theorem psTryAdd_inv (count : Nat) (src ps : List Nat) (p : Nat) (hp : p ∈ src)
+    (h : ps.Nodup ∧ (∀ x ∈ ps, x ∈ src) ∧ (count ≠ 0 → ps.length ≤ count)) :
+    (FullRT.psTryAdd count ps p).1.Nodup ∧ (∀ x ∈ (FullRT.psTryAdd count ps p).1, x ∈ src) ∧
+      (count ≠ 0 → (FullRT.psTryAdd count ps p).1.length ≤ count) ∧
+      (∀ x ∈ ps, x ∈ (FullRT.psTryAdd count ps p).1) ∧ (count = 0 → p ∈ (FullRT.psTryAdd count ps p).1) := by
+  obtain ⟨h1, h2, h3⟩ := h
+  unfold FullRT.psTryAdd
+  by_cases hc : (!ps.contains p && (decide (ps.length < count) || count == 0)) = true
+  · simp only [hc, if_true]
+    have hnot : p ∉ ps := by
+      have := (Bool.and_eq_true _ _).mp hc
+      simpa using this.1
+    have hb := ((Bool.and_eq_true _ _).mp hc).2
+    refine ⟨List.nodup_append.mpr ⟨h1, by simp, by intro a ha b hb' ; simp at hb'; subst hb'; exact fun e => hnot (e ▸ ha)⟩, ?_, ?_, ?_, ?_⟩
+    · intro x hx
+      rcases List.mem_append.mp hx with hx | hx
+      · exact h2 x hx
+      · have : x = p := by simpa using hx
+        subst this; exact hp
+    · intro hne
+      have : ps.length < count := by
+        rcases (Bool.or_eq_true _ _).mp hb with h' | h'
+        · simpa using h'
+        · exact absurd (by simpa using h') hne
+      simp; omega
+    · intro x hx; exact List.mem_append_left _ hx
+    · intro _; simp
+  · simp only [hc]
+    refine ⟨h1, h2, h3, fun x hx => hx, ?_⟩
+    intro h0
+    subst h0
+    cases hcp : ps.contains p with
+    | true => simpa using hcp
+    | false => simp [hcp] at hc; simpa using hc
+
+/-- C08 for the accelerated client, for every arrival order of the candidates (every schedule of its concurrent
+    requests — `psTryAdd` runs under a lock): no provider is yielded twice, every provider yielded was named by a source,
+    at most `count` are yielded when a count is given, and with no count every candidate that arrived is yielded -/
+theorem fullrt_yield_exact (count : Nat) (arrivals : List Nat) :
+    (FullRT.yielded count arrivals).Nodup ∧ (∀ x ∈ FullRT.yielded count arrivals, x ∈ arrivals) ∧
+    (count ≠ 0 → (FullRT.yielded count arrivals).length ≤ count) ∧
+    (count = 0 → ∀ x ∈ arrivals, x ∈ FullRT.yielded count arrivals) := by
+  unfold FullRT.yielded
+  suffices H : ∀ (l : List Nat) (ps : List Nat), (∀ x ∈ l, x ∈ arrivals) →
+      (ps.Nodup ∧ (∀ x ∈ ps, x ∈ arrivals) ∧ (count ≠ 0 → ps.length ≤ count)) →
+      let r := l.foldl (fun ps p => (FullRT.psTryAdd count ps p).1) ps
+      r.Nodup ∧ (∀ x ∈ r, x ∈ arrivals) ∧ (count ≠ 0 → r.length ≤ count) ∧ (∀ x ∈ ps, x ∈ r) ∧ (count = 0 → ∀ x ∈ l, x ∈ r) by
+    have h0 : ([] : List Nat).Nodup ∧ (∀ x ∈ ([] : List Nat), x ∈ arrivals) ∧ (count ≠ 0 → ([] : List Nat).length ≤ count) := by
+      refine ⟨List.nodup_nil, ?_, ?_⟩
+      · intro x hx; cases hx
+      · intro _; exact Nat.zero_le _
+    have := H arrivals [] (fun x hx => hx) h0
+    exact ⟨this.1, this.2.1, this.2.2.1, this.2.2.2.2⟩
+  intro l
+  induction l with
+  | nil => intro ps _ h; exact ⟨h.1, h.2.1, h.2.2, fun x hx => hx, fun _ x hx => by cases hx⟩
+  | cons p rest ih =>
+    intro ps hl h
+    have hp : p ∈ arrivals := hl p List.mem_cons_self
+    have ⟨a1, a2, a3, a4, a5⟩ := psTryAdd_inv count arrivals ps p hp h
+    have ⟨b1, b2, b3, b4, b5⟩ := ih (FullRT.psTryAdd count ps p).1 (fun x hx => hl x (List.mem_cons_of_mem _ hx)) ⟨a1, a2, a3⟩
+    simp only [List.foldl_cons]
+    refine ⟨b1, b2, b3, fun x hx => b4 x (a4 x hx), ?_⟩
+    intro h0 x hx
+    rcases List.mem_cons.mp hx with hx | hx
+    · subst hx; exact b4 x (a5 h0)
+    · exact b5 h0 x hx
+
+example : FullRT.yielded 0 [1, 2, 1, 3, 2] = [1, 2, 3] ∧ FullRT.yielded 2 [1, 2, 1, 3, 2] = [1, 2] := by decide
 
 end KadDHT.C08
